@@ -3,7 +3,8 @@
 All judging is done by vf/monitors/c18_passive.py (snapshot-compare around every depth-0 tapped call and around declared
 "manual" events for entry points without a tap).  This module is the workload: it drives every call form named by the
 property (conversion methods, operators, augmented assignment, ufuncs and their methods with and without out=, array
-functions, item assignment, Unit arithmetic) over scalar / array / view operands of several dtypes, with valid inputs and
+functions, item assignment, Unit arithmetic) over scalar / array / view operands of several dtypes, and - group "rescale" - every
+non-mutating two-operand call with mixed convertible units over exact dtype x memory layout x position of the operand, with valid inputs and
 with every invalid kind injected at every operand position, and - thorough tier - runs the repository's own test suite under
 the same observer.
 """
@@ -25,7 +26,9 @@ RULE = ("one evaluation = one snapshot comparison of one operand around one dept
         "unchanged; (c) the target of an in-place call that returned holds exactly the numbers (cast to its dtype) of the "
         "library's copying twin run on pre-call copies, bytes outside its extent unchanged. distinct = (oracle, op id incl. "
         "ufunc/function name, method and out= form, operand position, operand class dtype-family x own/view/scalar, outcome or "
-        "exception class, injected fault kind)")
+        "exception class, injected fault kind); for the operand swept by the rescaled-operand group (mixed convertible units, non-mutating binary "
+        "ufunc call / operator / .outer / two-operand array function) the operand class is replaced by its exact dtype incl. byte order and its "
+        "memory layout: (rescaled-operand, op id, position, dtype, layout, outcome)")
 ASSUMPTIONS = (
     "snapshots are taken with ndarray.tobytes()/sympy structural equality on the operands; NumPy and sympy are trusted",
     "the 'corresponding copying call' is the documented twin (convert_to_units->in_units, convert_to_base->in_base, convert_to_cgs->in_cgs, "
@@ -53,6 +56,15 @@ ASSUMPTIONS = (
     "inputs that overlap a target in memory (a[1:] += a[:-1], out= aliasing an input) are exempt from the byte comparison",
     "only depth-0 calls are judged; what nested calls do to caller-visible objects shows in the depth-0 comparison",
     "the name attribute is not part of 'numbers, unit and dtype' and is ignored",
+    "rescaled-operand sweep: every elementwise binary ufunc (call, operator, .outer) and the two-operand array functions / unyt helpers are called without "
+    "out= on operands of different but convertible units; the swept operand takes every exact dtype (complex, big-endian, float16, longdouble, integers, "
+    "bool) x every layout (owner, strided, reversed, zero-stride broadcast, 0-d, 0-d view, read-only, transposed, column, subclass instance, bare ndarray "
+    "next to percent) at both positions. It is judged by clause (a) whether the call returns or raises (complex // and %, float-only loops on complex "
+    "data raise TypeError *after* the unit handling): bit-identical bytes, dtype incl. byte order, shape, unit, viewed buffer. Whether such a call should "
+    "raise at all (read-only operand, unsupported loop) is not C18's subject",
+    "a bare ndarray combined with a scaled pure number (percent) is an operand like any other and must be left unchanged; a boolean 0-d operand is "
+    "built as a 0-d unyt_array because unyt_quantity refuses booleans; writeable/aligned flags and the Python class of an operand are not part of "
+    "'numbers, unit and dtype' and are not compared",
     "keys: failed-target keys carry what changed (data/unit) and the exception class, input-mutated keys the operand position and dtype family, "
     "differs-from-copying keys 'rounding' (<= 64 ulp or next to the subnormal range) vs 'value' and the dtype family of the target",
 )
@@ -235,6 +247,134 @@ def out_buffer(unyt, r, form, shape, a):
     raise KeyError(form)
 
 
+# ---------------------------------------------------------------------------------------------- rescaled-operand sweep
+# Non-mutating binary calls with mixed but convertible units: one operand has to be brought to the other's unit.  The swept operand
+# (the "subject") takes every exact dtype x every memory layout below and sits at either position; the other operand (the "partner")
+# is an ordinary array of the same shape in a convertible unit.
+R_DTYPES = {"quick": ["c16", "c8", ">c16", ">f8", "f2", "f8", "i4", "u1", "?"],
+            "thorough": ["c16", "c8", ">c16", ">c8", "G", "f8", "f4", "f2", ">f8", ">f4", "g", "i8", "i4", "i2", ">i4", "u4", "u1", "i1", "?"]}
+R_LAYOUTS = {"quick": ["own", "step", "rev", "bcast", "0d", "elem", "ro", "sub", "T", "bare"],
+             "thorough": ["own", "step", "rev", "bcast", "0d", "elem", "ro", "sub", "T", "col", "2d", "size1", "empty", "bare", "bare-step"]}
+# (unit of the subject, unit of the partner): both directions of the scale factor, compound units, scaled pure numbers, absolute
+# temperature scales, and a temperature difference next to a reading on another scale (there it is the *first* operand that is rescaled)
+R_PAIRS = [("m", "cm"), ("cm", "m"), ("km", "mile"), ("s", "ms"), ("g/cm**3", "kg/m**3"), ("dimensionless", "percent"), ("percent", "dimensionless"),
+           ("K", "R"), ("delta_degF", "degC"), ("degC", "delta_degF"), ("rad", "degree")]
+R_PARTNERS = ["f8", "f8", "same-dtype", "scalar", "i4", "special"]
+R_FORMS = ["call", "op", "outer"]
+
+
+def _rvals(r, n, dt):
+    d = np.dtype(dt)
+    if d.kind == "b":
+        return np.array([bool(r.getrandbits(1)) for _ in range(n)], dtype=d)
+    if d.kind == "c":
+        return np.array([complex(r.uniform(0.5, 90.0), r.uniform(-30, 30)) for _ in range(n)]).astype(d)
+    if d.kind in "iu":
+        return np.array([r.randint(1, 100) for _ in range(n)]).astype(d)
+    return np.array([r.uniform(0.5, 90.0) * r.choice([1, 1, -1]) for _ in range(n)]).astype(d)
+
+
+_SUB = {}
+
+
+def _subclass(unyt):
+    c = _SUB.get(id(unyt))
+    if c is None:
+        class TaggedArray(unyt.unyt_array):
+            """a user's subclass of unyt_array (no behaviour of its own)"""
+        _SUB[id(unyt)] = c = TaggedArray
+    return c
+
+
+def _quantity(unyt, v, unit):
+    """0-d operand holding the NumPy scalar v (unyt_quantity refuses booleans: those become a 0-d unyt_array)"""
+    if np.asarray(v).dtype.kind == "b":
+        return unyt.unyt_array(np.array(v), unit)
+    return unyt.unyt_quantity(v, unit)
+
+
+def mk_subject(unyt, r, unit, dt, layout):
+    """operand of exact dtype dt in the given memory layout -> (operand, holder keeping its buffer alive)"""
+    ua = unyt.unyt_array
+    if layout == "own":
+        a = ua(_rvals(r, 4, dt), unit); return a, a
+    if layout == "step":
+        b = ua(_rvals(r, 9, dt), unit); return b[1::2], b
+    if layout == "rev":
+        b = ua(_rvals(r, 4, dt), unit); return b[::-1], b
+    if layout == "bcast":          # zero-stride, read-only view of one element
+        b = _rvals(r, 1, dt); a = ua(np.broadcast_to(b, (4,)), unit); return a, b
+    if layout == "0d":
+        q = _quantity(unyt, _rvals(r, 1, dt)[0], unit); return q, q
+    if layout == "elem":
+        b = ua(_rvals(r, 5, dt), unit); return b[2, ...], b
+    if layout == "ro":
+        a = ua(_rvals(r, 4, dt), unit); a.flags.writeable = False; return a, a
+    if layout == "sub":
+        a = _subclass(unyt)(_rvals(r, 4, dt), unit); return a, a
+    if layout == "T":
+        b = ua(_rvals(r, 4, dt).reshape(2, 2), unit); return b.T, b
+    if layout == "2d":
+        b = ua(_rvals(r, 4, dt).reshape(2, 2), unit); return b, b
+    if layout == "col":
+        b = ua(_rvals(r, 12, dt).reshape(4, 3), unit); return b[:, 1], b
+    if layout == "size1":
+        a = ua(_rvals(r, 1, dt), unit); return a, a
+    if layout == "empty":
+        a = ua(np.empty(0, dtype=dt), unit); return a, a
+    if layout == "bare":           # an ndarray without units: a pure number next to a scaled pure number
+        a = _rvals(r, 4, dt); return a, a
+    if layout == "bare-step":
+        b = _rvals(r, 9, dt); return b[1::2], b
+    raise KeyError(layout)
+
+
+def mk_partner(unyt, r, subj, unit, kind, sdt, tier):
+    """second operand of the same shape as the subject, in the given (convertible) unit"""
+    if kind == "scalar":
+        return unyt.unyt_quantity(r.uniform(1, 9), unit)
+    if kind == "special" and subj.shape == (4,):
+        return mk_subject(unyt, r, unit, r.choice(R_DTYPES[tier]), r.choice(["own", "step", "rev", "bcast", "ro", "sub"]))[0]
+    dt = {"same-dtype": sdt, "i4": "i4"}.get(kind, "f8")
+    if subj.shape == ():
+        return _quantity(unyt, _rvals(r, 1, dt)[0], unit)
+    return unyt.unyt_array(_rvals(r, max(1, subj.size), dt)[:subj.size].reshape(subj.shape), unit)
+
+
+# array functions and unyt helpers that combine two operands of convertible units without being asked to write anywhere:
+# name -> (callable(x, y), tapped?)   x is the operand at position 0, y at position 1
+RFUNCS = {
+    "isclose": (lambda u, x, y: np.isclose(x, y), True), "allclose": (lambda u, x, y: np.allclose(x, y), True),
+    "array_equal": (lambda u, x, y: np.array_equal(x, y), True), "array_equiv": (lambda u, x, y: np.array_equiv(x, y), True),
+    "concatenate": (lambda u, x, y: np.concatenate([np.atleast_1d(x), np.atleast_1d(y)]), True),
+    "hstack": (lambda u, x, y: np.hstack([x, y]), True), "stack": (lambda u, x, y: np.stack([x, y]), True),
+    "where": (lambda u, x, y: np.where(np.ones(np.shape(x), dtype=bool), x, y), True), "clip": (lambda u, x, y: np.clip(x, y, None), True),
+    "clip-both": (lambda u, x, y: np.clip(x, y, y), True), "append": (lambda u, x, y: np.append(x, y), True),
+    "union1d": (lambda u, x, y: np.union1d(x, y), True), "intersect1d": (lambda u, x, y: np.intersect1d(x, y), True),
+    "setdiff1d": (lambda u, x, y: np.setdiff1d(x, y), True), "isin": (lambda u, x, y: np.isin(x, y), True),
+    "linspace": (lambda u, x, y: np.linspace(x, y, 3), True), "searchsorted": (lambda u, x, y: np.searchsorted(np.atleast_1d(x), y), True),
+    "select": (lambda u, x, y: np.select([np.ones(np.shape(x), dtype=bool)], [x], y), True),
+    "uconcatenate": (lambda u, x, y: u.uconcatenate([np.atleast_1d(x), np.atleast_1d(y)]), False), "uunion1d": (lambda u, x, y: u.uunion1d(x, y), False),
+    "uintersect1d": (lambda u, x, y: u.uintersect1d(x, y), False), "uvstack": (lambda u, x, y: u.uvstack([x, y]), False),
+    "uhstack": (lambda u, x, y: u.uhstack([x, y]), False), "allclose_units": (lambda u, x, y: u.array.allclose_units(x, y), False),
+    "divmod-builtin": (lambda u, x, y: divmod(x, y), False), "method-clip": (lambda u, x, y: x.clip(y, None), False),
+    "method-searchsorted": (lambda u, x, y: x.searchsorted(y), False), "method-dot": (lambda u, x, y: x.dot(y), False),
+}
+
+
+def rescale_items():
+    items = []
+    for uf in ufuncs(2):
+        if getattr(np, uf).signature is not None:
+            continue
+        for form in R_FORMS:
+            if form == "op" and uf not in OPS:
+                continue
+            items.append(["uf", uf, form])
+    items += [["fn", n, "call"] for n in sorted(RFUNCS)]
+    return items
+
+
 # ---------------------------------------------------------------------------------------------- batches
 def _plan(tier):
     return {"draws": 1 if tier == "quick" else 10, "nb": 8 if tier == "quick" else 32}
@@ -268,6 +408,8 @@ def batches(tier, seed):
         out.append((f"func/{i}", {"g": "func", "items": c, "seed": seed, "tier": tier}))
     for i, c in enumerate(chunks(ufuncs(2), max(2, p["nb"] // 4))):
         out.append((f"ufmeth/{i}", {"g": "ufmeth", "items": c, "seed": seed, "tier": tier}))
+    for i, c in enumerate(chunks(rescale_items(), 12 if tier == "quick" else 48)):
+        out.append((f"rescale/{i}", {"g": "rescale", "items": c, "seed": seed, "tier": tier}))
     out.append(("setitem", {"g": "setitem", "items": [], "seed": seed, "tier": tier}))
     out.append(("unitop", {"g": "unitop", "items": [], "seed": seed, "tier": tier}))
     out.append(("methods", {"g": "methods", "items": [], "seed": seed, "tier": tier}))
@@ -478,6 +620,62 @@ class Driver:
                         self.run(label, f2, lambda: uf(a, b, out=(o,)))
                     else:
                         self.run(label, f2, lambda: uf(a, b, out=o))
+
+    # ------------------------------------------------------------------ rescaled-operand sweep (dtype x layout x position)
+    def g_rescale(self, items):
+        unyt, r, tier = self.unyt, self.r, self.tier
+        dts, lays = R_DTYPES[tier], R_LAYOUTS[tier]
+        for kind, name, form in items:
+            cases = []
+            if tier == "thorough":
+                for pair in R_PAIRS:
+                    for dt in dts:
+                        for lay in lays:
+                            for pos in (0, 1):
+                                cases.append((pair, dt, lay, pos))
+            else:
+                # every dtype x layout x position with a drawn unit pair, and every unit pair x position with drawn dtypes/layouts
+                for dt in dts:
+                    for lay in lays:
+                        for pos in (0, 1):
+                            cases.append((r.choice(R_PAIRS), dt, lay, pos))
+                for pair in R_PAIRS:
+                    for pos in (0, 1):
+                        cases.append((pair, r.choice(dts[:3]), r.choice(lays), pos))
+                        cases.append((pair, r.choice(dts[3:]), r.choice(lays), pos))
+            for (su, pu), dt, lay, pos in cases:
+                if lay.startswith("bare"):
+                    su, pu = None, "percent"
+                try:
+                    subj, hold = mk_subject(unyt, r, su, dt, lay)
+                except Exception as e:          # the operand itself cannot be built: nothing to judge
+                    self.rec.count(f"rescale:operand-not-built:{dt}:{lay}:{type(e).__name__}")
+                    continue
+                pk = r.choice(R_PARTNERS)
+                part = mk_partner(unyt, r, subj, pu, pk, dt, tier)
+                x, y = (subj, part) if pos == 0 else (part, subj)
+                label = ["rescale", name, form, su, pu, dt, lay, pos, pk]
+                man = None
+                if kind == "uf":
+                    uf = getattr(np, name)
+                    if form == "call":
+                        fn = lambda: uf(x, y)
+                    elif form == "op":
+                        fn = lambda: OPS[name][0](x, y)
+                    else:
+                        fn = lambda: uf.outer(x, y)
+                else:
+                    f0, tapped = RFUNCS[name]
+                    fn = lambda: f0(unyt, x, y)
+                    if not tapped:
+                        man = self.obs.manual("helper/" + name, inputs=[("in0", x), ("in1", y)])
+                self.obs.subject = (subj, np.dtype(dt).str.replace("|", ""), lay)
+                try:
+                    outcome = self.run(label, None, fn, manual=man)
+                finally:
+                    self.obs.subject = None
+                self.rec.count("rescale:calls")
+                self.rec.count("rescale:" + ("returned" if outcome == "returned" else outcome))
 
     # ------------------------------------------------------------------ unary ufuncs
     def g_unary(self, items):
@@ -1089,11 +1287,16 @@ def extra(tier, seed, results):
             counters[k] = counters.get(k, 0) + v
         reached.update(rr.get("reached", []))
         cells.update(rr.get("cells", []))
-    sub = {"input": 0, "failed-target": 0, "outside": 0, "twin": 0}
+    sub = {"input": 0, "failed-target": 0, "outside": 0, "twin": 0, "rescaled-operand": 0}
+    grid = {"dtype": {}, "layout": {}, "position": {}, "outcome": {}}
     for c in cells:
         k = c.split("|", 1)[0]
         if k in sub:
             sub[k] += 1
+        if k == "rescaled-operand":
+            p = c.split("|")
+            for dim, v in (("dtype", p[3]), ("layout", p[4]), ("position", p[2]), ("outcome", p[5])):
+                grid[dim][v] = grid[dim].get(v, 0) + 1
     fault_seen = {f: counters.get(f"fault:{f}:raised", 0) for f in FAULTS}
     fault_returned = {f: counters.get(f"fault:{f}:returned", 0) for f in FAULTS}
     failed_by_exc = {}
@@ -1110,7 +1313,8 @@ def extra(tier, seed, results):
     unreached_funcs = sorted(n for n in ("concatenate", "stack", "around", "clip", "choose", "einsum", "take", "dot", "outer", "copyto", "put", "place", "putmask",
                                           "put_along_axis", "fill_diagonal") if not any(x.startswith("func/" + n) for x in reached))
     npcat = sorted(x[len("npcat:"):] for x in reached if x.startswith("npcat:"))
-    ev = {"npcatalog_functions_driven": len(npcat), "sub_monitor_cells": sub, "faults_raised": fault_seen, "faults_returned": fault_returned, "failed_target_cells_by_exception": failed_by_exc,
+    ev = {"npcatalog_functions_driven": len(npcat), "sub_monitor_cells": sub, "rescaled_operand_cells": grid,
+          "rescaled_operand_calls": {k: v for k, v in counters.items() if k.startswith("rescale:")}, "faults_raised": fault_seen, "faults_returned": fault_returned, "failed_target_cells_by_exception": failed_by_exc,
           "unreached": {"taps": unreached_taps, "ufuncs": unreached_ufuncs, "out_functions": unreached_funcs},
           "raise_sites_hit": sorted(x[len("raise-site:"):] for x in reached if x.startswith("raise-site:"))[:200],
           "events": {k: v for k, v in counters.items() if k.startswith("event:")},
@@ -1119,6 +1323,11 @@ def extra(tier, seed, results):
     for k, v in sub.items():
         if v == 0:
             raise core.Inconclusive(f"sub-monitor '{k}' was never evaluated")
+    want = [("dtype", np.dtype(d).str.replace("|", "")) for d in R_DTYPES[tier]] + [("layout", x) for x in R_LAYOUTS[tier]] + [("position", "in0"), ("position", "in1"),
+                                                                                                        ("outcome", "returned"), ("outcome", "raised")]
+    unseen = [f"{dim}={v}" for dim, v in want if not grid[dim].get(v, 0)]
+    if unseen:
+        raise core.Inconclusive("rescaled-operand sweep never judged: " + ",".join(unseen))
     missing = [f for f, n in fault_seen.items() if n == 0]
     if missing:
         raise core.Inconclusive("injected fault kinds that never made a call raise: " + ",".join(missing))
